@@ -85,6 +85,20 @@ func HarnessConnEnd() {
 	for i := 0; i < n; i++ {
 		verif.Assert(h.ctxs[i] != nil && h.ctxs[i].Err() == nil, "handler-context-live-while-connected")
 	}
+	// whatever else the peer sent before (odd but harmless frames), the end of the connection is noticed
+	switch verif.Choice("odd_frame_before_end", 6) {
+	case 1:
+		pc.Send([]byte{})
+	case 2:
+		pc.SendBinary([]byte{})
+	case 3:
+		pc.Send([]byte(`{"jsonrpc":`))
+	case 4:
+		pc.Send([]byte("  \n"))
+	case 5:
+		pc.Send([]byte(`{"jsonrpc":"2.0","id":99,"result":1}`))
+	}
+	verif.Quiesce()
 	cause := verif.Choice("cause", 3)
 	switch cause {
 	case 0:
